@@ -232,7 +232,9 @@ void harness(void)
         CHECK(inside_d || arena[k] == old_k, "C01: byte outside dest[0..dmax) modified");
     }
     CANARY(rc != EOK, "success reachable");
+#if !IS_ZERO
     CANARY(rc != ESNOSPC, "n > dmax reachable");
+#endif
 #else
     /* overlap classification in bytes */
     size_t w0 = doff, w1 = doff + dbytes, r0 = soff, r1 = soff + nbytes;
